@@ -163,10 +163,16 @@ def scaled_cost(rng, x0):
 # ====================================================================================== cases
 def gen_nm_case(rng, tier):
     dim = rng.randint(1, 4 if tier == "quick" else 8)
+    if rng.random() < 0.12:
+        dim = 1                     # the one-dimensional simplex: xbar = the best vertex, adaptive sigma = 0, psi = 1/4, chi = 3
     flavour = rng.choice(["ordinary"] * 10 + ["tiny"] * 5 + ["huge"] * 2 + ["mixed"] * 3)
     x0 = gen_x0(rng, dim, flavour)
     k = rng.random()
-    if k < 0.12:
+    if flavour == "ordinary" and rng.random() < 0.22:
+        e = rippled_cost(rng, dim); k = 2.0
+    if k == 2.0:
+        pass
+    elif k < 0.12:
         e = ("sum",) + tuple(("abs", ("x", i)) for i in range(dim))            # symmetric: exact ties
     elif k < 0.16:
         e = ("sum",) + tuple(("sq", ("rint", ("x", i))) for i in range(dim))   # plateaus
@@ -197,10 +203,48 @@ def gen_nm_case(rng, tier):
     if kind == "int":
         x0 = [float(int(v)) for v in x0]          # what the callee sees: the int 0 for a -0.0
     c = {"dim": dim, "expr": e, "x0": x0, "xtol": xtol, "ftol": ftol, "maxiter": maxiter, "maxfun": maxfun,
-         "flavour": flavour, "x0kind": kind, "boundary": None}
+         "flavour": flavour, "x0kind": kind, "boundary": None, "adaptive": False, "radius": None, "via": None}
+    # the solver's own keywords (Solve(adaptive=, radius=) or the sticky attributes): the dimension-adaptive coefficient
+    # set of Gao & Han and the size of the initial simplex.  Drawn BEFORE the boundary probe so that the probe runs the
+    # configuration of the case.
+    q = rng.random()
+    if q < 0.30:
+        c["adaptive"] = rng.choice([True, True, True, 1])
+    if rng.random() < 0.22:
+        c["radius"] = rng.choice([0.05, 0.1, 0.5, 1.0, 0.01, 0.25, 2.0, 1e-3, 0.025, 0.125, rng.uniform(0.001, 1.0), rng.uniform(0.001, 1.0),
+                                  -0.5, -0.25, 1e-8, 0.0, 10.0])
+    if c["radius"] is not None and any(v != 0 and (1 + c["radius"]) * v == 0 for v in x0):
+        c["radius"] = abs(c["radius"])      # a denormal coordinate times (1+radius) < 1 rounds to zero: `val == 0` then sees the product (not generated)
+    if c["adaptive"] or c["radius"] is not None:
+        c["via"] = rng.choice(["solve-kwds", "solve-kwds", "attributes"])
     if rng.random() < 0.14:
         boundary_case(rng, c)
     return c
+
+
+def rippled_cost(rng, dim):
+    """objectives that are NOT unimodal along a line - the inputs on which an inside contraction fails and the simplex
+    shrinks (scipy_optimize.py l.333-341): a bowl plus a triangle wave, a sawtooth (discontinuous), double wells, and a
+    bowl with narrow notches.  Built from the DSL's abs / rint / min / max, so the Lean twin evaluates them too."""
+    fam = rng.choice(["triangle", "triangle", "sawtooth", "double-well", "notches", "triangle-only"])
+    terms = []
+    for i in range(dim):
+        cst = dyadic(rng, -3, 3, 4); x = ("x", i)
+        w = rng.choice([0.5, 0.5, 0.01, 1.0, 0.1]); amp = rng.choice([0.5, 2.0, 0.1, 5.0, 1.0]); fr = rng.choice([1.0, 2.5, 10.0, 40.0, 5.0, 0.75])
+        t = ("*", ("c", fr), ("-", x, ("c", dyadic(rng, -1, 1, 4))))
+        bowl = ("*", ("c", w), ("sq", ("-", x, ("c", cst))))
+        if fam == "triangle":
+            terms += [bowl, ("*", ("c", amp), ("abs", ("-", t, ("rint", t))))]
+        elif fam == "triangle-only":
+            terms += [("*", ("c", 0.001 * w), ("abs", ("-", x, ("c", cst)))), ("*", ("c", amp), ("abs", ("-", t, ("rint", t))))]
+        elif fam == "sawtooth":
+            terms += [bowl, ("*", ("c", amp), ("-", t, ("rint", t)))]
+        elif fam == "double-well":
+            b2 = cst + rng.choice([1.0, 2.5, -3.0, 0.5])
+            terms.append(("min", ("sq", ("-", x, ("c", cst))), ("+", ("*", ("c", rng.choice([1.0, 4.0, 0.25])), ("sq", ("-", x, ("c", b2)))), ("c", rng.choice([0.5, -0.5, 0.0, 2.0])))))
+        else:
+            terms += [bowl, ("neg", ("*", ("c", amp), ("max", ("c", 0.0), ("-", ("c", 0.25), ("abs", ("-", t, ("rint", t)))))))]
+    return ("sum",) + tuple(terms)
 
 
 def boundary_case(rng, c):
@@ -254,6 +298,10 @@ def probe_run(c, nsteps):
         s.SetInitialPoints(list(c["x0"]))
         s.SetEvaluationLimits(10 ** 6, 10 ** 7)
         s.SetTermination(VTR(-INF, 0.0))
+        if c.get("adaptive"):
+            s.adaptive = c["adaptive"]
+        if c.get("radius") is not None:
+            s.radius = c["radius"]
         old = np.seterr(all="ignore")
         try:
             for g in range(nsteps + 1):
@@ -306,6 +354,82 @@ def ref_with_zdelt(z):
     return fn
 
 
+_REFVAR = {}
+
+
+def ref_variant():
+    """the reference's OWN source (`_scipy060optimize.fmin`) with three assignments parametrised - the coefficient line
+    `rho = 1; chi = 2; psi = 0.5; sigma = 0.5;` and the two initial-simplex constants - and nothing else touched (None if one
+    of the three lines is not there exactly once).  Returns call(coef, nonzdelt, zdelt) -> fmin-like function."""
+    if "fn" in _REFVAR:
+        return _REFVAR["fn"]
+    import inspect
+    from mystic import _scipy060optimize as REF
+    fn = None
+    try:
+        src = inspect.getsource(REF.fmin)
+        pats = [("rho = 1; chi = 2; psi = 0.5; sigma = 0.5;", "rho, chi, psi, sigma = __nm_coef__"),
+                ("    nonzdelt = 0.05\n", "    nonzdelt = __nm_nonzdelt__\n"), ("    zdelt = 0.00025\n", "    zdelt = __nm_zdelt__\n")]
+        if all(src.count(a) == 1 for a, _ in pats):
+            for a, b in pats:
+                src = src.replace(a, b)
+            g = dict(REF.__dict__)
+            exec(compile(src, "<_scipy060optimize.fmin, coefficients and initial-simplex constants parametrised>", "exec"), g)
+
+            def fn(coef, nonzdelt, zdelt, g=g):
+                def call(*a, **kw):
+                    g["__nm_coef__"] = coef; g["__nm_nonzdelt__"] = nonzdelt; g["__nm_zdelt__"] = zdelt
+                    return g["fmin"](*a, **kw)
+                return call
+    except Exception:
+        fn = None
+    _REFVAR["fn"] = fn
+    return fn
+
+
+def published_coef(adaptive, n):
+    """(rho, chi, psi, sigma): the standard set, or - adaptive - the dimension-dependent set of Gao & Han, 'Implementing the
+    Nelder-Mead simplex algorithm with adaptive parameters' (2012), as scipy.optimize's Nelder-Mead computes it"""
+    if not adaptive:
+        return (1, 2, 0.5, 0.5)
+    dim = float(n)
+    return (1, 1 + 2 / dim, 0.75 - 1 / (2 * dim), 1 - 1 / dim)
+
+
+def nonstandard(c):
+    return bool(c.get("adaptive")) or c.get("radius") is not None
+
+
+def mystic_zdelt(c):
+    r = c.get("radius")
+    return ZDELT_MYSTIC if r is None else (r ** 2) * 0.1            # scipy_optimize.py l.137, python's own `**`
+
+
+def run_scipy_nm(c):
+    """the installed scipy's Nelder-Mead (an independent implementation of the published algorithm), or None"""
+    try:
+        from scipy.optimize import minimize
+    except Exception:
+        return None
+    pts = []; ys = []
+    e = c["expr"]
+
+    def cost(x):
+        xv = vec(x); y = dsl.ev(e, xv); pts.append(xv); ys.append(y); return y
+    N = len(c["x0"])
+    old = np.seterr(all="ignore")
+    try:
+        r = minimize(cost, np.array(given_x0(c), dtype=float), method="Nelder-Mead",
+                     options=dict(xatol=c["xtol"], fatol=c["ftol"], maxiter=c["maxiter"] if c["maxiter"] is not None else N * 200,
+                                  maxfev=c["maxfun"] if c["maxfun"] is not None else N * 200, adaptive=bool(c.get("adaptive")), disp=False))
+    except Exception:
+        return None
+    finally:
+        np.seterr(**old)
+    return {"x": vec(r.x), "f": float(r.fun), "iter": int(r.nit), "fcalls": int(r.nfev), "status": int(r.status), "ncalls": len(pts),
+            "pts": pts, "ys": ys, "nan": any(y != y or abs(y) == INF for y in ys)}
+
+
 def run_nm(which, c):
     """which: 'fmin' (one-liner) | 'solver' (the class, as fmin drives it but with CandidateRelativeTolerance given
     explicitly) | 'ref' | 'refz' (reference with mystic's zdelt).  Records every cost call."""
@@ -324,12 +448,34 @@ def run_nm(which, c):
             s = NelderMeadSimplexSolver(len(x0))
             s.SetInitialPoints(x0)
             s.SetEvaluationLimits(c["maxiter"], c["maxfun"])
-            s.Solve(cost, termination=CRT(c["xtol"], c["ftol"]), disp=0)
+            skw = {}
+            if c.get("via") == "attributes":
+                if c.get("adaptive"):
+                    s.adaptive = c["adaptive"]
+                if c.get("radius") is not None:
+                    s.radius = c["radius"]
+            else:
+                if c.get("adaptive"):
+                    skw["adaptive"] = c["adaptive"]
+                if c.get("radius") is not None:
+                    skw["radius"] = c["radius"]
+            s.Solve(cost, termination=CRT(c["xtol"], c["ftol"]), disp=0, **skw)
             x, f, it, fc = s.bestSolution, s.bestEnergy, s.generations, s.evaluations
             wf = 1 if fc >= s._maxfun else (2 if it >= s._maxiter else 0)       # as fmin reports it (l.534-537)
         else:
             if which == "fmin":
                 from mystic.solvers import fmin as fn
+            elif which == "refvar-defaults":
+                fn = ref_variant()(published_coef(False, len(x0)), 0.05, ZDELT_REF)      # must be the reference itself
+            elif nonstandard(c):
+                # the published algorithm for this configuration: Gao-Han coefficients when adaptive; the initial simplex
+                # displaced by `radius` (mystic's name for nonzdelt) with mystic's radius**2 * 0.1 for exact zeros
+                r = c.get("radius")
+                coef = published_coef(c.get("adaptive"), len(x0))
+                if r is None:
+                    fn = ref_variant()(coef, 0.05, ZDELT_REF if which == "ref" else ZDELT_MYSTIC)
+                else:
+                    fn = ref_variant()(coef, r, mystic_zdelt(c))
             elif which == "ref":
                 fn = REF.fmin
             else:
@@ -362,6 +508,14 @@ def init_simplex_monitor(c, r, who, zdelts, hist):
     zdelt.  Independent of the objective's values (so also judged on runs whose energies are inf / NaN)."""
     x0 = given_x0(c); N = len(x0)
     pts = r["pts"]
+    rad = c.get("radius")
+    nonz = NONZ if rad is None else 1 + rad
+    rule = "(1+0.05)" if rad is None else "(1+radius)"
+    if rad is not None:
+        zdelts = [mystic_zdelt(c)]
+        if any(v != 0 and nonz * v == 0 for v in x0):
+            hadd(hist, "nm:radius:displaced-coordinate-vanishes(radius=-1 or underflow)")      # `val == 0` sees the product
+            return []
     if len(pts) < N + 1:
         return [("%s/initial-simplex/too-few-evaluations" % who, "only %d cost calls for a simplex of %d vertices (x0=%r)" % (len(pts), N + 1, x0))]
     if not same_vec(pts[0], x0):
@@ -369,15 +523,15 @@ def init_simplex_monitor(c, r, who, zdelts, hist):
     for k in range(N):
         want = [list(x0)]
         if x0[k] != 0:
-            want[0][k] = NONZ * x0[k]
+            want[0][k] = nonz * x0[k]
         else:
             want = []
             for z in zdelts:
                 w = list(x0); w[k] = z; want.append(w)
         if not any(same_vec(pts[k + 1], w) for w in want):
-            return [("%s/initial-simplex/%s-coordinate" % (who, coord_class(x0[k])),
+            return [("%s/initial-simplex/%s-coordinate%s" % (who, coord_class(x0[k]), "" if rad is None else "/radius-given"),
                      "vertex %d of the initial simplex was evaluated at %r; x0=%r, so coordinate %d must be %s = %r"
-                     % (k + 1, pts[k + 1], x0, k, "(1+0.05)*x0[%d]" % k if x0[k] != 0 else "zdelt", [w[k] for w in want]))]
+                     % (k + 1, pts[k + 1], x0, k, "%s*x0[%d]" % (rule, k) if x0[k] != 0 else "zdelt", [w[k] for w in want]))]
     return []
 
 
@@ -410,6 +564,18 @@ def nm_monitor(c, route, a, b, bz, hist):
     hadd(hist, "nm:route:%s" % route); hadd(hist, "nm:flavour:%s" % c.get("flavour")); hadd(hist, "nm:x0-given-as:%s" % c.get("x0kind"))
     if c.get("boundary"):
         hadd(hist, "nm:boundary:%s" % c["boundary"])
+    N = len(x0)
+    cfg = ""
+    if c.get("adaptive"):
+        ncl = "n=1" if N == 1 else ("n=2" if N == 2 else "n>=3")          # sigma = 0 | the standard set again | all four differ
+        cfg += "/adaptive-coefficients(%s)" % ncl
+        hadd(hist, "nm:adaptive:%s" % ncl)
+    if c.get("radius") is not None:
+        cfg += "/radius-given"
+        hadd(hist, "nm:radius:%s" % ("default-value" if c["radius"] == 0.05 else ("zero" if c["radius"] == 0 else ("negative" if c["radius"] < 0 else "other"))))
+    if c.get("via"):
+        hadd(hist, "nm:keywords-via:%s" % c["via"])
+    hadd(hist, "nm:dim:%s" % (N if N < 4 else ">=4"))
     for nm, r in ((who, a), ("reference", b)):
         if r["fcalls"] != r["ncalls"]:
             out.append(("fmin/funcalls-miscounted/%s" % nm, "%s reports %d function calls, %d were made" % (nm, r["fcalls"], r["ncalls"])))
@@ -470,14 +636,46 @@ def nm_monitor(c, route, a, b, bz, hist):
                         % (c["ftol"], x0, describe(a), tname, describe(target), min(a["ncalls"], target["ncalls"]))))
         return out, False
     if i is not None:
-        out.append(("%s/evaluation-sequence-differs-from-reference/%s" % (who, "start-with-exact-zero" if zero else "nonzero-start"),
+        out.append(("%s/evaluation-sequence-differs-from-reference/%s%s" % (who, "start-with-exact-zero" if zero else "nonzero-start", cfg),
                     "cost call %d: %s evaluated %r -> %r, the %s %r -> %r ; %s -> %s ; %s -> %s"
                     % (i, who, a["pts"][i], a["ys"][i], tname, target["pts"][i], target["ys"][i], who, describe(a), tname, describe(target))))
     elif not result_eq(a, target, with_f):
-        out.append(("%s/differs-from-reference%s" % (who, "/start-with-exact-zero" if zero else ""),
+        out.append(("%s/differs-from-reference%s%s" % (who, "/start-with-exact-zero" if zero else "", cfg),
                     "%s -> %s ; %s -> %s (evaluations agree up to call %d)" % (who, describe(a), tname, describe(target), min(a["ncalls"], target["ncalls"]))))
     hadd(hist, "nm:stop:%s" % {0: "converged", 1: "maxfun", 2: "maxiter"}[b["warn"]])
+    nsh = tie_census(c, target, {}, "x") or 0
+    if nsh:
+        hadd(hist, "nm:run-with-shrink%s" % cfg); hadd(hist, "nm:run-with-shrink:dim=%s" % (N if N < 4 else ">=4"))
     return out, (b["iter"] >= 3 and not nanrun)
+
+
+def scipy_nm_monitor(c, route, a, hist):
+    """the real run against the INSTALLED scipy's Nelder-Mead (independent code, same published algorithm, knows
+    `adaptive`): every evaluation, minimizer, minimum, iteration and evaluation counts.  Applies where the two programs
+    are specified alike: default radius, no exactly-zero start coordinate (scipy's zdelt is the reference's 0.00025, one
+    ulp from mystic's), xtol != 0 on the fmin route, finite energies, and a run that does not stop on the evaluation
+    limit (scipy refuses the call that would exceed maxfev instead of finishing the iteration)."""
+    who = "fmin" if route == "fmin" else "NelderMeadSimplexSolver"
+    x0 = given_x0(c)
+    if (not started(c)) or c.get("radius") is not None or any(v == 0.0 for v in x0) or (route == "fmin" and not c["xtol"]) or a["nan"]:
+        return []
+    if a["warn"] == 1:
+        hadd(hist, "nm:scipy:skipped(evaluation-limit)"); return []
+    sp = run_scipy_nm(c)
+    if sp is None:
+        hadd(hist, "nm:scipy:unavailable"); return []
+    if sp["status"] == 1 or sp["nan"]:
+        hadd(hist, "nm:scipy:skipped(evaluation-limit)"); return []
+    hadd(hist, "nm:scipy:compared%s" % ("(adaptive)" if c.get("adaptive") else ""))
+    i = first_diff(a, sp)
+    cfg = "/adaptive-coefficients(%s)" % ("n=1" if len(x0) == 1 else ("n=2" if len(x0) == 2 else "n>=3")) if c.get("adaptive") else ""
+    if i is not None:
+        return [("%s/evaluation-sequence-differs-from-scipy%s" % (who, cfg), "cost call %d: %s evaluated %r -> %r, scipy.optimize Nelder-Mead %r -> %r ; %s -> %s ; scipy -> x=%r f=%r nit=%d nfev=%d"
+                 % (i, who, a["pts"][i], a["ys"][i], sp["pts"][i], sp["ys"][i], who, describe(a), sp["x"], sp["f"], sp["iter"], sp["fcalls"]))]
+    if not (veq(a["x"], sp["x"]) and feq(a["f"], sp["f"]) and (a["iter"], a["fcalls"]) == (sp["iter"], sp["fcalls"])):
+        return [("%s/differs-from-scipy%s" % (who, cfg), "%s -> %s ; scipy -> x=%r f=%r nit=%d nfev=%d" % (who, describe(a), sp["x"], sp["f"], sp["iter"], sp["fcalls"]))]
+    hadd(hist, "nm:scipy:identical")
+    return []
 
 
 def tie_census(c, r, hist, tag="nm:energy-comparison"):
@@ -486,7 +684,8 @@ def tie_census(c, r, hist, tag="nm:energy-comparison"):
     decided by EQUAL energies - the inputs on which `<` and `<=` differ"""
     N = len(c["x0"]); ys = r["ys"]
     if len(ys) < N + 1 or r["nan"]:
-        return
+        return 0
+    nshrink = 0
     fsim = np.array(ys[:N + 1], dtype=float)
     fsim = np.take(fsim, np.argsort(fsim), 0)
     i = N + 1
@@ -499,7 +698,7 @@ def tie_census(c, r, hist, tag="nm:energy-comparison"):
         shrink = False
         if fxr < fsim[0]:
             if i >= len(ys):
-                return
+                return nshrink
             fxe = ys[i]; i += 1
             cmp("fxe<fxr", fxe, fxr)
             fsim[-1] = fxe if fxe < fxr else fxr
@@ -511,7 +710,7 @@ def tie_census(c, r, hist, tag="nm:energy-comparison"):
             else:
                 cmp("fxr<fsim[-1]", fxr, fsim[-1])
                 if i >= len(ys):
-                    return
+                    return nshrink
                 if fxr < fsim[-1]:
                     fxc = ys[i]; i += 1
                     cmp("fxc<=fxr", fxc, fxr)
@@ -528,8 +727,9 @@ def tie_census(c, r, hist, tag="nm:energy-comparison"):
                         shrink = True
                 if shrink:
                     if i + N > len(ys):
-                        return
+                        return nshrink
                     for j in range(1, N + 1):
                         fsim[j] = ys[i]; i += 1
-                    hadd(hist, "%s:shrink" % tag)
+                    hadd(hist, "%s:shrink" % tag); nshrink += 1
         fsim = np.take(fsim, np.argsort(fsim), 0)
+    return nshrink
